@@ -41,11 +41,16 @@ def observe(model, pop, src):
     n = pop.ntaxa
     mat = np.asarray(pop.mat)
     a = (mat[0].astype(int) + mat[1].astype(int)).sum(0)
-    arg = pop if src == "matrix" else (mat[0] + mat[1]).astype("int8")
+    if src == "unphased":
+        # the unphased projection of the population, as a genotyping protocol hands it on
+        from pybrops.breed.prot.gt.DenseUnphasedGenotyping import DenseUnphasedGenotyping
+        arg = DenseUnphasedGenotyping().genotype(pop)
+    else:
+        arg = pop if src == "matrix" else (mat[0] + mat[1]).astype("int8")
     lat = True
     out = {"n": int(n), "a": [int(x) for x in a], "src": src}
     for key, fn, un in (("usl0", model.usl, False), ("lsl0", model.lsl, False), ("usl1", model.usl, True), ("lsl1", model.lsl, True)):
-        v, ok = ints(fn(arg, unscale=un) if src == "matrix" else fn(arg, ploidy=2, unscale=un))
+        v, ok = ints(fn(arg, unscale=un) if src != "array" else fn(arg, ploidy=2, unscale=un))
         out[key] = v; lat = lat and ok
     g = np.asarray(model.gebv(pop).unscale(), dtype=float)
     gmin, ok1 = ints(g.min(0)); gmax, ok2 = ints(g.max(0))
@@ -69,7 +74,7 @@ def history(hid, rng):
     sizes = [2, 3, 4, 7, 12, 49, 98, 103, 107, 161, 250]
     n0 = rng.choice(sizes)
     pop = founder(n0, L, rng, nrng)
-    gens = [observe(model, pop, rng.choice(["matrix", "array"]))]
+    gens = [observe(model, pop, rng.choice(["matrix", "array", "unphased"]))]
     ngen = rng.choice([4, 6, 8, 12])
     for g in range(ngen):
         pkey = rng.choice(list(PROTOS))
@@ -100,7 +105,7 @@ def history(hid, rng):
             gens.append(observe(model, pop, "matrix"))
         else:
             pop = prog
-            gens.append(observe(model, pop, rng.choice(["matrix", "array"])))
+            gens.append(observe(model, pop, rng.choice(["matrix", "array", "unphased"])))
     return {"id": hid, "u": u.astype(int).tolist(), "beta": [int(x) for x in bstar], "nfixed": q, "gens": gens}
 
 
